@@ -17,12 +17,13 @@ size_t strspn(const char *p, const char *set)
     size_t k = nondet_size();
     __CPROVER_assert(set[0] == '0' && set[9] == '9' && set[10] == 'a' && set[15] == 'f' && set[16] == 'A' && set[21] == 'F' && set[22] == 0, "strspn is modelled for the set of hex digits only");
     __CPROVER_assume(k <= 0x7fffffff);
-    if (k > 0) __CPROVER_assume(V_IS_HEX(BYTE_AT(p)));
-    if (k > 1) __CPROVER_assume(V_IS_HEX(BYTE_AT(p + 1)));
-    if (k > 2) __CPROVER_assume(V_IS_HEX(BYTE_AT(p + 2)));
-    if (k > 3) __CPROVER_assume(V_IS_HEX(BYTE_AT(p + 3)));
-    if (k > 4) __CPROVER_assume(V_IS_HEX(BYTE_AT(p + 4)));
-    if (k <= 4) __CPROVER_assume(!V_IS_HEX(BYTE_AT(p + k)));
+    /* each byte is read once into a local: every textual dereference is a separate index for the array theory */
+    if (k > 0) { int b0 = BYTE_AT(p);     __CPROVER_assume(V_IS_HEX(b0)); }
+    if (k > 1) { int b1 = BYTE_AT(p + 1); __CPROVER_assume(V_IS_HEX(b1)); }
+    if (k > 2) { int b2 = BYTE_AT(p + 2); __CPROVER_assume(V_IS_HEX(b2)); }
+    if (k > 3) { int b3 = BYTE_AT(p + 3); __CPROVER_assume(V_IS_HEX(b3)); }
+    if (k > 4) { int b4 = BYTE_AT(p + 4); __CPROVER_assume(V_IS_HEX(b4)); }
+    if (k <= 4) { int bk = BYTE_AT(p + k); __CPROVER_assume(!V_IS_HEX(bk)); }
     return k;
 }
 
@@ -37,7 +38,11 @@ __CPROVER_ensures(__CPROVER_return_value != 0 ==> Q_IS_DIGIT(BYTE_AT(start)))
 int is_ipv6(const char *start, const char *end)
 /* fixed 46-byte object: with a symbolic object size the 18 unwound iterations run out of memory (> 24 GB).
    Addresses longer than 45 bytes: job is_ipv6_len proves that without a dotted quad they are never accepted. */
+#ifdef IPV6_ANYLEN
+__CPROVER_requires(RANGE_REQ(start, end, (size_t)0x7ffffff0) && start[g_len] == ']')
+#else
 __CPROVER_requires(g_len <= 45 && __CPROVER_is_fresh(start, 46) && __CPROVER_pointer_in_range_dfcc(start, end, start + g_len) && end == start + g_len && start[g_len] == ']')
+#endif
 __CPROVER_requires(v_ph == V_START && v_groups == 0 && v_hex == 0 && v_dc == 0 && g_pos == 0 && g_grp == 0 && rec_ip4_calls == 0)
 __CPROVER_assigns(v_ph, v_groups, v_hex, v_dc, g_pos, g_grp, rec_ip4_calls, rec_ip4_rc, rec_ip4_start, rec_ip4_end)
 __CPROVER_ensures(RET == 0 || RET == 1)
